@@ -20,8 +20,10 @@ Inductive case :=
 (* one reconcile of the real hash controller: np.Hash(), annotations of the pool and of its claims before / after *)
 | CaseHashCtl (h : string) (pool_before : option string * option string) (claims_before : list cl_ann)
               (pool_after : option string * option string) (claims_after : list cl_ann)
-(* one NodePool through template construction, ToNodeClaim, launch, and a sequence of drift reconciles *)
-| CaseSys (validated : bool) (noresolve : list string) (p : pool) (pod : list (string * call))
+(* one NodePool through template construction, ToNodeClaim, launch, and a sequence of drift reconciles.
+   [built_from] = Hash() of the pool object NewNodeClaimTemplate was given (after any edits, whatever the hash
+   controller had stamped by then); [stamp] = the hash / hash-version annotations the new claim carries *)
+| CaseSys (built_from : string) (stamp : option string * option string) (validated : bool) (noresolve : list string) (p : pool) (pod : list (string * call))
           (claim_l provider_l final_l : labels) (fresh_scenario : bool) (steps : list (dinput * option string))
 | CaseNote.
 
@@ -80,6 +82,10 @@ Fixpoint check_steps (n : nat) (fresh_scenario : bool) (validated : bool) (cache
       ++ check_steps (S n) fresh_scenario validated (cache_after d) obs rest
   end.
 
+Definition stamp_ok (ver built_from : string) (stamp : option string * option string) : bool :=
+  let m := build_stamp ver (mkPS built_from (None, None)) in
+  opt_str_eqb (fst stamp) (fst m) && opt_str_eqb (snd stamp) (snd m).
+
 Definition tag (ok : bool) (t : string) : list string := if ok then [] else [t].
 
 Definition check_case (c : case) : list string :=
@@ -97,8 +103,10 @@ Definition check_case (c : case) : list string :=
       (* oracle: a claim that already carries Drifted stays drifted across a hash-version migration: its hash
          annotation is not re-stamped with the pool's new hash *)
       ++ tag (drifted_kept h cb ca) "oracle:drifted-claim-restamped"
-  | CaseSys validated noresolve p pod claim_l provider_l final_l fresh_scenario steps =>
-      tag (claim_labels_allowed noresolve p pod claim_l) "corr:claim-labels"
+  | CaseSys built_from stamp validated noresolve p pod claim_l provider_l final_l fresh_scenario steps =>
+      (* template-fields oracle: the claim's hash annotation is the hash of the template it was built from *)
+      tag (stamp_ok hash_version built_from stamp) "oracle:claim-hash-is-not-the-hash-of-its-template"
+      ++ tag (claim_labels_allowed noresolve p pod claim_l) "corr:claim-labels"
       ++ tag (labels_eqb (populate claim_l provider_l) final_l) "corr:populate"
       ++ check_steps 0 fresh_scenario validated false None steps
   | CaseNote => []
